@@ -110,6 +110,7 @@ struct stub_integrand
     bool may_ask_weight = false;
     int dist_kinds = 0;       // 0: no projector use; 1 finite value; 5 with non-finite values
     bool dist_x_symbolic = true;
+    mutable bool sanitize = false;    // return zero wherever the stored value is not finite ("the same points returned zero")
 
     T evaluate(hep::mc_point<T> const& p, hep::projector<T>* proj) const
     {
@@ -137,7 +138,12 @@ struct stub_integrand
             }
             it = tab->f.emplace(key, e).first;
         }
-        auto const& e = it->second;
+        auto e = it->second;
+        if (sanitize)
+        {
+            if (e.kind == V_NAN || e.kind == V_PINF || e.kind == V_NINF) { e.f = T(0.0); e.kind = V_ZERO; }
+            if (e.dvk == V_NAN || e.dvk == V_PINF || e.dvk == V_NINF) { e.dv = T(0.0); e.dvk = V_ZERO; }
+        }
         r.f = e.f;
         r.f_kind = e.kind;
         log->ev("integrand");
